@@ -43,6 +43,15 @@ def rustc_value_forms(res):
     for v, p in cases:
         progs.append("use assert_struct::assert_struct;\n" + RUSTC_DECLS +
                      "#[allow(unused, clippy::all)] fn main() { let c = true; let m = -1; assert_struct!(%s, %s); }\n" % (v, p))
+    # the same value expressions handed over by a caller's macro_rules! helper as an `$v:expr` fragment (it reaches the macro as
+    # ONE invisibly delimited group, which rustc drops again when it re-parses the expansion: a template that treats a single
+    # token tree as atomic splices the fragment bare)
+    direct = len(progs)
+    for v, p in cases:
+        progs.append("use assert_struct::assert_struct;\n" + RUSTC_DECLS +
+                     "macro_rules! check_it { ($v:expr) => { assert_struct!($v, %s) }; }\n"
+                     "#[allow(unused, clippy::all)] fn main() { let c = true; let m = -1; check_it!(%s); }\n" % (p, v))
+    cases = cases + [(v + "   [as the $v:expr fragment of a macro_rules! helper]", p) for v, p in cases]
     out = e2e.compile_many(progs, run=True, tag="c14v")
     e2e.cleanup("c14v")
     bad = 0
